@@ -92,12 +92,8 @@ Definition c01_loss_only_reported_full : Prop :=
    subscriber attached its receiver side *)
 Theorem c01_loss_only_reported_refuted : ~ c01_loss_only_reported_full.
 Proof.
-  intros H.
-  specialize (H cfg11 [OSubCreate None None; OPubCreate 1 false HNone; OSendCopy 0]).
-  vm_compute in H.
-  match type of H with forall w obs o w1 ob, Val (?W, ?O) = _ -> _ =>
-    specialize (H W O (OPubDrop 0)) end.
-  vm_compute in H. specialize (H _ _ eq_refl eq_refl). discriminate.
+  intros H. destruct lost_witness as ([obs Hr] & w1 & ob & Hs & Hl).
+  rewrite (H _ _ _ _ _ _ _ Hr Hs) in Hl. discriminate.
 Qed.
 Print Assumptions c01_loss_only_reported_refuted.
 
